@@ -70,8 +70,8 @@ class DrawPatch:
     the module `random` at call time by mystic.strategy) are replaced by generators driven by the case stream that
     record what they returned.  `sample` records the POSITIONS it picked in the population it was handed."""
 
-    def __init__(self, rng, cr, boundary=True, script=None):
-        self.rng = rng; self.cr = float(cr); self.boundary = boundary
+    def __init__(self, rng, cr, boundary=True, script=None, cand=None):
+        self.rng = rng; self.cr = float(cr); self.boundary = boundary; self.cand = cand
         self.script = script          # fixed draws {"positions": [..], "n0": k, "us": [..]} (witnesses / replays)
         self.positions = None; self.pool = None; self.n0 = None; self.nrange = None; self.us = []
         self.extra = []
@@ -86,6 +86,13 @@ class DrawPatch:
                 pos = list(me.script["positions"])[:k]
             else:
                 pos = me.rng.sample(range(len(population)), k)       # raises ValueError like the real one
+                # boundary draws: the pool positions next to the excluded candidate (a pool that wrongly still holds
+                # the parent holds it exactly there); for the pool as specified these are ordinary members
+                if me.boundary and me.cand is not None and k <= len(population) and me.rng.random() < 0.5:
+                    for q in (me.cand, me.cand - 1):
+                        if 0 <= q < len(population) and q not in pos:
+                            pos[me.rng.randrange(k)] = q
+                            break
             if me.positions is None:
                 me.positions = pos; me.pool = population
             else:
@@ -146,7 +153,7 @@ def record_call(fn, name, inst, cand, rng, boundary=True, script=None):
            "F": float(inst.scale), "CR": float(inst.probability),
            "pop": [vec(p) for p in inst.population], "best": vec(inst.bestSolution),
            "trial_before": trial_rows(inst)}
-    with DrawPatch(rng, inst.probability, boundary, script) as dp:
+    with DrawPatch(rng, inst.probability, boundary, script, cand=int(cand)) as dp:
         fn(inst, cand)
     obs["trial_after"] = trial_rows(inst)
     obs["positions"] = dp.positions; obs["pool"] = dp.pool; obs["n0"] = dp.n0; obs["us"] = list(dp.us)
@@ -265,6 +272,9 @@ def make_inst(rng, two, name, tier):
     kind = kind_of(name)
     dim = rng.choice([1, 1, 2, 2, 3, 3, 4, 5, 6, 8] if tier == "quick" else [1, 2, 3, 4, 5, 6, 8, 10, 12])
     npop = NCAND[kind] + 1 + rng.choice([0, 0, 1, 2, 3, 6])
+    if rng.random() < 0.06:
+        # populations beyond CPython's small-integer cache (indices >= 257 are distinct objects with equal values)
+        npop = rng.choice([258, 300, 513, 1025]); dim = rng.choice([1, 2, 3])
     s = (DifferentialEvolutionSolver2 if two else DifferentialEvolutionSolver)(dim, npop)
     if rng.random() < 0.6:
         s.nPop = npop                      # also below the constructor's max(NP, dim, 4): strategies only read nPop
@@ -301,6 +311,9 @@ def strat_case(rng, tier, hist):
     two = rng.random() < 0.5
     s = make_inst(rng, two, name, tier)
     cand = rng.choice([0, s.nPop - 1, rng.randrange(s.nPop)])
+    if s.nPop > 257:
+        cand = rng.choice([s.nPop - 1, 257, rng.randrange(257, s.nPop), rng.randrange(s.nPop)])
+        hadd(hist, "strategy:NP>257")
     o = record_call(getattr(S, name), name, s, cand, rng)
     return o
 
